@@ -16,6 +16,7 @@ structure ImplConj where
 structure Case where
   id : String := ""
   g : Graph := #[]
+  cmps : List (Nat × Nat × Nat) := []     -- comparison atoms: node ↦ (vector, constant)
   roots : Array (Option Nat) := #[]
   impl : Array ImplConj := #[]
   model : Array St := #[]
@@ -33,12 +34,14 @@ structure Stats where
   sigNodes : Nat := 0
   builds : Nat := 0
   maxLeaves : Nat := 0
+  cmpAtoms : Nat := 0
 
 def optNat (s : String) : Option Nat := if s == "-" then none else s.toNat?
 
 def parseNode (toks : List String) : Option CNode :=
   match toks with
   | ["leaf"] => some .leaf | ["cx"] => some .leaf
+  | ["cmp", _, _] => some .leaf      -- `vector == constant`: an atom of the analysis; its truth value comes from the vector valuation
   | ["c0"] => some (.const false) | ["c1"] => some (.const true)
   | ["not", a] => some (.not (optNat a))
   | ["sig", a] => some (.sig (optNat a))
@@ -61,8 +64,17 @@ def stTerms (s : St) : List (Nat × Bool) := sortPairs (s.terms.map fun t => (t.
 
 def leavesOf (g : Graph) : List Nat := (List.range g.size).filter fun i => g[i]? == some .leaf
 
+/-- valuations that respect the comparison atoms: every 3-bit value of the (at most two) compared vectors × the given valuations of
+    the free atoms; `vec == k` is true exactly for the vector value `k` -/
+def withCmps (cmps : List (Nat × Nat × Nat)) (base : List (Nat → Bool)) : List (Nat → Bool) :=
+  if cmps.isEmpty then base else
+  (List.range 64).flatMap fun vv => base.map fun ρ => fun i =>
+    match cmps.find? (·.1 == i) with
+    | some (_, v, k) => (if v == 0 then vv % 8 else vv / 8) == k
+    | none => ρ i
+
 /-- valuations to try: all of them for ≤ 12 leaves, otherwise 512 pseudo-random ones -/
-def valuations (leaves : List Nat) (salt : Nat) : List (Nat → Bool) × Bool :=
+def valuations0 (leaves : List Nat) (salt : Nat) : List (Nat → Bool) × Bool :=
   let L := leaves.length
   if L ≤ 12 then
     ((List.range (2 ^ L)).map fun m => fun i => match leaves.idxOf? i with | some k => m.testBit k | none => false, true)
@@ -70,6 +82,11 @@ def valuations (leaves : List Nat) (salt : Nat) : List (Nat → Bool) × Bool :=
     ((List.range 512).map fun m => fun i =>
         let x := (i + 1) * 0x9E3779B97F4A7C15 + (m + 1) * 0xBF58476D1CE4E5B9 + salt
         ((x / 2^17) ^^^ (x / 2^31)) % 2 == 1, false)
+
+def valuationsC (cmps : List (Nat × Nat × Nat)) (leaves : List Nat) (salt : Nat) : List (Nat → Bool) × Bool :=
+  let free := leaves.filter fun i => !(cmps.any (·.1 == i))
+  let (base, ex) := valuations0 (if free.length ≤ 6 || cmps.isEmpty then free else free.take 6) salt
+  (withCmps cmps base, ex && (free.length ≤ 6 || cmps.isEmpty))
 
 def implSem (g : Graph) (ρ : Nat → Bool) (c : ImplConj) : Bool :=
   !c.contra && c.terms.all fun t => eval g ρ t.1 != t.2
@@ -96,7 +113,8 @@ partial def loop (h : IO.FS.Stream) (c : Case) (st : Stats) (lineNo : Nat) : IO 
     match parseNode rest with
     | some n =>
       let isSig := match n with | .sig _ => 1 | _ => 0
-      loop h { c with g := c.g.push n } { st with sigNodes := st.sigNodes + isSig } (lineNo+1)
+      let cmps := match rest with | ["cmp", v, k] => (c.g.size, v.toNat!, k.toNat!) :: c.cmps | _ => c.cmps
+      loop h { c with g := c.g.push n, cmps := cmps } { st with sigNodes := st.sigNodes + isSig, cmpAtoms := st.cmpAtoms + (if rest.head? == some "cmp" then 1 else 0) } (lineNo+1)
     | none => fail "DIFF" s!"unparsed node line [{line.trimAscii}]"; loop h c { st with diffs := st.diffs + 1 } (lineNo+1)
   | ["root", _, p] => loop h { c with roots := c.roots.push (optNat p) } st (lineNo+1)
   | ["parse", r, u, ct, ts] =>
@@ -114,7 +132,7 @@ partial def loop (h : IO.FS.Stream) (c : Case) (st : Stats) (lineNo : Nat) : IO 
       -- property: the analysed form means the same as the original condition, for every valuation
       if !ic.undef then
         let leaves := leavesOf c.g
-        let (vals, ex) := valuations leaves lineNo
+        let (vals, ex) := valuationsC c.cmps leaves lineNo
         st := if ex then { st with exhaustiveTT := st.exhaustiveTT + 1 } else { st with sampledTT := st.sampledTT + 1 }
         st := { st with maxLeaves := max st.maxLeaves leaves.length }
         match vals.find? (fun ρ => evalPort c.g ρ root != implSem c.g ρ ic) with
@@ -138,7 +156,7 @@ partial def loop (h : IO.FS.Stream) (c : Case) (st : Stats) (lineNo : Nat) : IO 
       -- property for intersect: both originals imply the intersection (its terms are a subset of each)
       if r == 100 then
         let leaves := leavesOf c.g
-        let (vals, _) := valuations leaves lineNo
+        let (vals, _) := valuationsC c.cmps leaves lineNo
         let ia := c.impl.getD 0 ⟨true, false, []⟩; let ib := c.impl.getD 1 ⟨true, false, []⟩
         if !ia.contra && !ib.contra then
           match vals.find? (fun ρ => (implSem c.g ρ ia && !implSem c.g ρ { ic with contra := false }) || (implSem c.g ρ ib && !implSem c.g ρ { ic with contra := false })) with
@@ -158,7 +176,7 @@ partial def loop (h : IO.FS.Stream) (c : Case) (st : Stats) (lineNo : Nat) : IO 
     if impl.any id then
       let ri := c.roots.getD i none; let rj := c.roots.getD j none
       let leaves := leavesOf c.g
-      let (vals, _) := valuations leaves lineNo
+      let (vals, _) := valuationsC c.cmps leaves lineNo
       st := { st with positives := st.positives + (impl.filter id).length }
       let names := ["isEqualTo", "isNegationOf", "isSubsetOf", "cannotBothBeTrue", "cannotBothBeTrue(cmp)"]
       for (nm, k) in names.zip (List.range 5) do
@@ -186,7 +204,7 @@ partial def loop (h : IO.FS.Stream) (c : Case) (st : Stats) (lineNo : Nat) : IO 
     -- (the implementation's new nodes are already appended to c.g; strip them to get the old graph)
     let m := c.model.getD r {}
     let leaves := leavesOf c.g
-    let (vals, _) := valuations leaves lineNo
+    let (vals, _) := valuationsC c.cmps leaves lineNo
     match vals.find? (fun ρ => evalPort c.g ρ root != evalPort c.g ρ outp) with
     | some ρ =>
       let w := " ".intercalate (leaves.map fun l => s!"{l}={b2s (ρ l)}")
@@ -211,4 +229,4 @@ partial def loop (h : IO.FS.Stream) (c : Case) (st : Stats) (lineNo : Nat) : IO 
 
 def main : IO Unit := do
   let st ← loop (← IO.getStdin) {} {} 1
-  IO.println s!"SUMMARY \{\"cases\":{st.cases},\"ops\":{st.ops},\"diffs\":{st.diffs},\"propfails\":{st.propfails},\"positive_verdicts_checked\":{st.positives},\"exhaustive_truth_tables\":{st.exhaustiveTT},\"sampled_truth_tables\":{st.sampledTT},\"undefined_roots\":{st.undefRoots},\"contradicting_roots\":{st.contraRoots},\"signal_nodes\":{st.sigNodes},\"builds\":{st.builds},\"max_leaves\":{st.maxLeaves}}"
+  IO.println s!"SUMMARY \{\"cases\":{st.cases},\"ops\":{st.ops},\"diffs\":{st.diffs},\"propfails\":{st.propfails},\"positive_verdicts_checked\":{st.positives},\"exhaustive_truth_tables\":{st.exhaustiveTT},\"sampled_truth_tables\":{st.sampledTT},\"undefined_roots\":{st.undefRoots},\"contradicting_roots\":{st.contraRoots},\"signal_nodes\":{st.sigNodes},\"builds\":{st.builds},\"max_leaves\":{st.maxLeaves},\"comparison_atoms\":{st.cmpAtoms}}"
